@@ -258,7 +258,9 @@ Definition gentoo_ops (a b : str) : res ops :=
   | Err e => Err e
   end.
 
-(* gentoo.canonical_key: what is hashed *)
+(* gentoo.canonical_key: what is hashed.  The code keys the components it compares as integers on int(c); on ASCII
+   digits that integer is represented here by its canonical numeral (no leading zeros), which is the same key up to
+   a bijection; digits of other scripts are outside the models and are exercised on the implementation by C12. *)
 Fixpoint mapM_opt {A B} (f : A -> option B) (l : list A) : option (list B) :=
   match l with
   | [] => Some []
